@@ -30,6 +30,7 @@ RULE = (
     "ops / a committed batch on its trie. Exhaustive part: all 64 subsets of a 6-key prefix-closed universe "
     "x 11 queries. Non-trivial = >=3 keys with a proper-prefix pair and a query strictly "
     "between two stored keys that is not stored itself. Distinct = canonical JSON."
+    ' Added after the seeded rounds: shared sub-tries and 16-way fans in the item generator; zip(keys(), values()) of one iterator; two iterators (old root / new root) consumed in lock step; the database may call back from a read and run a complete inner next(); a fixed deep-chain case.'
 )
 LEVEL_TEXT = (
     "Exploration by model-based property testing against sorted(dict) and the reference "
